@@ -47,3 +47,6 @@ func verifSSTableInit(ss *SSTable) error {
 
 func verifMmapAdvise(m *MmapFile, pattern utils.AccessPattern) error { return nil }
 func verifMmapClose(m *MmapFile) error                              { return nil }
+
+// VerifFileBytes: the bytes of a model file (engine only).
+func VerifFileBytes(name string) []byte { return verifFiles[name] }
